@@ -61,10 +61,11 @@ def default_value(kind, tshape):
 class Src:
     """deterministic value source: expands a short list of drawn integers into values of any kind/shape"""
 
-    def __init__(self, vals, tmax=5):
+    def __init__(self, vals, tmax=5, whole=False):
         self.v = [int(x) for x in vals] or [0]
         self.j = 0
         self.tmax = max(1, int(tmax))
+        self.whole = bool(whole)     # float values are whole numbers (so that they can also be handed over integer-typed)
 
     def raw(self):
         L = len(self.v)
@@ -77,7 +78,7 @@ class Src:
         if kind == 'i':
             return int(r)
         if kind == 'f':
-            return r / 8.0
+            return float(r) if self.whole else r / 8.0
         if kind == 'b':
             return bool(r % 2 == 1)
         if kind == 's':
